@@ -37,9 +37,9 @@ T = {
             'exhaustive configuration enumeration + truncation-rule reference model', '4/C12'),
     'C13': ('Bounded-exhaustive enumeration of states (shape, profile, charges, spectrum kind) x tolerance x mode for compress/from_vector.',
             'exhaustive configuration enumeration + dense Schmidt reference', '4/C13'),
-    'C14': ('Every (n, m<=n) x matrix kind x start kind x map presentation within the bounds run through the real Lanczos/Arnoldi.',
+    'C14': ('Every (n, m<=n) x matrix kind x start kind x map presentation x units of map and start vector (exact powers of two) within the bounds run through the real Lanczos/Arnoldi.',
             'exhaustive configuration enumeration + dense reference', '4/C14'),
-    'C15': ('Every (n, m<=n+2) x matrix kind x start kind x dt x flag run through eigh_krylov/expm_krylov.',
+    'C15': ('Every (n, m<=n+2 and beyond) x matrix kind x start kind x dt x flag x units of map and start vector run through eigh_krylov/expm_krylov.',
             'exhaustive configuration enumeration + dense reference', '4/C15'),
     'C16': ('Explicit-state search over the real OpGraph: BFS over rewrite sequences from every small layered graph with colliding ids; '
             'states de-duplicated by exact canonical form; path-polynomial invariant on every transition.',
